@@ -244,8 +244,9 @@ pub fn feasible(s: &[u8], modes: u8, cap: usize, h: usize, tier: Tier, st: &mut 
                     let r = j - i;
                     if r % 4 == 0 {
                         // group boundary: with <= 2 codewords left the rest is ASCII, no unlatch
+                        // (also directly after the latch: an empty run, cf. DESIGN.md 10.3 C13)
                         let pos = base + 3 * r / 4;
-                        if pos <= cap && cap - pos <= 2 && (r > 0 || en(Mode::Ascii)) {
+                        if pos <= cap && cap - pos <= 2 {
                             let rest = &s[j..];
                             if rest.len() <= 4 && ascii_size(rest) <= cap - pos {
                                 st.transitions += 1;
